@@ -157,7 +157,7 @@ def run_mc(name, workers=NCPU, extra=None, timeout=3600, cfg=None, env=None, hea
     specification itself violates one of its invariants."""
     tla = os.path.join(SPEC, "mc", name + ".tla")
     cfgp = os.path.join(SPEC, "mc", (cfg or name) + ".cfg")
-    r = run_tlc(tla, cfgp, workers=workers, extra=extra, timeout=timeout, env=env, heap=heap)
+    r = run_tlc(tla, cfgp, workers=workers, extra=extra, timeout=timeout, env=env, heap=heap or "8g")
     if not r["ok"]:
         raise MachineryError("spec-level model checking of %s failed:\n%s" % (name, r["out"][-4000:]))
     return r
@@ -186,7 +186,7 @@ def _validate_shard(args):
     while start <= n:
         env = {"TRACE_FILE": path, "TRACE_START": str(start)}
         env.update(env_extra or {})
-        r = run_tlc(tla, cfg, workers=1, env=env, timeout=timeout, heap="3g", gcthreads=2)
+        r = run_tlc(tla, cfg, workers=1, env=env, timeout=timeout, heap="2500m", gcthreads=2)
         wall += r["wall"]
         for m in _MIS.finditer(r["out"]):
             mismatches.append((int(m.group(1)), m.group(2), (m.group(3) or "")[:2000]))
